@@ -92,6 +92,14 @@ def near(rnd, sk, lo, hi):
             v = val(sk, b)
             if not G.is_inf(v):
                 out += [fenc(sk, float(v) + 1.0), fenc(sk, float(v) - 1.0), fenc(sk, float(v) + 0.125), fenc(sk, float(v) - 0.125)]
+        else:
+            # far away by a power of two: a range test done in a narrower type aliases these into the box
+            r0, r1 = G.IRANGE[sk]
+            v = G.dec(sk, b)
+            for k in (8, 16, 31, 32, 33, 48, 63):
+                for x in (v + (1 << k), v - (1 << k)):
+                    if r0 <= x <= r1:
+                        out.append(G.enc(sk, x))
     return out
 
 
@@ -139,9 +147,22 @@ def coord_mix(rnd, sk, lo, hi, n, inside_bias=0.35):
 def random_box(rnd, sk, N, mode=None):
     """box as bit patterns; modes: small, degenerate, wide, extreme, random"""
     lo, hi = [], []
-    mode = mode or rnd.choice(["small", "small", "degenerate", "wide", "extreme", "random"])
+    mode = mode or rnd.choice(["small", "small", "degenerate", "wide", "extreme", "random", "zero", "tiny"])
     for _ in range(N):
-        if mode == "small":
+        if mode == "zero":
+            # a face at zero (either sign of zero for floats) and a short edge: subnormal neighbours of the face, -0.0 on it
+            if G.isf(sk):
+                a = rnd.choice([G.enc(sk, Fr(0)), 1 << (W[sk] - 1)])
+                b = rnd.choice([fenc(sk, 0.5), fenc(sk, 0.25), fenc(sk, 2.0 ** -20), 1, 5, fenc(sk, 3.0), G.enc(sk, Fr(0))])
+            else:
+                a, b = G.enc(sk, 0), G.enc(sk, rnd.choice([0, 1, 3, 7, 200]))
+        elif mode == "tiny" and G.isf(sk):
+            # both bounds of tiny magnitude (subnormal, or so small that products of distances underflow)
+            k1 = rnd.choice([1, 2, 7, 1 << 10, 1 << (W[sk] - 12), fkey(sk, fenc(sk, 1e-30)), fkey(sk, fenc(sk, 2.0 ** -100))])
+            k2 = k1 + rnd.choice([0, 1, 3, 1 << 8, k1])
+            sgn = rnd.choice([1, 1, -1])
+            a, b = (fbits(sk, k1), fbits(sk, k2)) if sgn > 0 else (fbits(sk, -k2 - 1), fbits(sk, -k1 - 1))
+        elif mode in ("small", "tiny"):
             a = G.small(rnd, sk)
             b = a + (rnd.randrange(0, 6) if not G.isf(sk) else Fr(rnd.randrange(0, 40), 8))
             a, b = G.enc(sk, a), G.enc(sk, b)
